@@ -246,6 +246,54 @@ class Ctx:
                 cfg, r.get("depth"), r.get("error"), tail(r["out"], 25)))
         return fails
 
+    def trace_judge_parts(self, subdir, module, cfg, events, max_events=40000, timeout=1800, workers=4,
+                          is_start=lambda e: e.get("event") == "init"):
+        """Judge a long trace as several independent TLC runs: the trace is cut at start events (histories / worlds are
+        independent) into parts of about max_events lines, each judged by its own TLC (memory stays bounded, parts run in
+        parallel). Returns the failure records with line numbers of the WHOLE trace."""
+        import concurrent.futures
+        starts = [i for i, e in enumerate(events) if is_start(e)]
+        if len(events) <= max_events or len(starts) < 2:
+            path = os.path.join(self.work, "whole-%d.ndjson" % len(self.models))
+            write_ndjson(path, events)
+            return self.trace_judge(subdir, module, cfg, path, timeout=timeout)
+        cuts, nxt = [0], max_events
+        for st in starts:
+            if st >= nxt:
+                cuts.append(st)
+                nxt = st + max_events
+        cuts.append(len(events))
+        src = self.spec_scratch(subdir)
+
+        def one(k):
+            a, b = cuts[k], cuts[k + 1]
+            d = os.path.join(self.work, "trpart-%s-%d-%d" % (cfg.replace(".cfg", ""), len(self.models), k))
+            shutil.copytree(src, d)
+            write_ndjson(os.path.join(d, "trace.ndjson"), events[a:b])
+            r = self.tlc(d, module, cfg, timeout, workers=1, tag="tracepart%d" % k)
+            shutil.rmtree(d, ignore_errors=True)
+            if r["timed_out"] or r["error"] or r["rc"] != 0:
+                raise Inconclusive("trace part %d of %s was not consumed entirely: %s\n%s" % (k, cfg, r.get("error"), tail(r["out"], 20)))
+            out = []
+            for line in r["out"].splitlines():
+                i = line.find("@@FAIL@@")
+                if i >= 0:
+                    js = extract_tla_string(line[i + 8:])
+                    if js is not None:
+                        f = json.loads(js)
+                        f["line"] += a
+                        out.append(f)
+            return out, r.get("states") or 0, r.get("transitions") or 0
+
+        fails = []
+        with concurrent.futures.ThreadPoolExecutor(max_workers=workers) as ex:
+            for out, st, tr in ex.map(one, range(len(cuts) - 1)):
+                fails += out
+                self.states += st
+                self.transitions += tr
+        fails.sort(key=lambda f: f["line"])
+        return fails
+
     # ---------------------------------------------------------------- Go
     def go_prepare(self):
         h = os.path.join(VERIF, "harness")
